@@ -17,8 +17,8 @@ from .seams import draw_values
 from .sweep import run_family
 
 RULE = ("8 mode combinations x (reset observation + step() observation of every reachable state x flat action) "
-        "+ every flat index as int/np.int64/np.int32/0-d sampler output and every parameterised vector as "
-        "list/tuple/np.ndarray + enumerated sampler outputs; non-trivial = observation with non-zero host rows, "
+        "+ every flat index as int/np.int64/np.int32/np.uint16/np.uint8 and every parameterised vector as "
+        "list/tuple/np.ndarray[int64,int32,uint8] + enumerated sampler outputs; non-trivial = observation with non-zero host rows, "
         "or accepted action-space member")
 
 MODES = list(itertools.product((False, True), (True, False), (True, False)))   # (fully_obs, flat_actions, flat_obs)
@@ -150,7 +150,10 @@ def post_explore(ctx, res, pids, opts):
                 pass    # size is C11's matter; members of the space as built are what C10 quantifies over
             for i in range(int(sp.n)):
                 good = True
-                for rep, v in (("int", int(i)), ("np.int64", np.int64(i)), ("np.int32", np.int32(i))):
+                reps_ = [("int", int(i)), ("np.int64", np.int64(i)), ("np.int32", np.int32(i)), ("np.uint16", np.uint16(i))]
+                if i < 256:
+                    reps_.append(("np.uint8", np.uint8(i)))
+                for rep, v in reps_:
                     good = try_step(v, rep, i) and good
                 counts["flat_members"] += 1
                 if not good:
@@ -176,7 +179,8 @@ def post_explore(ctx, res, pids, opts):
                 vecs = itertools.product(*[range(n) for n in nvec])
             for vec in vecs:
                 good = True
-                for rep, v in (("list", list(vec)), ("tuple", tuple(vec)), ("np.ndarray[int64]", np.array(vec, dtype=np.int64))):
+                for rep, v in (("list", list(vec)), ("tuple", tuple(vec)), ("np.ndarray[int64]", np.array(vec, dtype=np.int64)),
+                               ("np.ndarray[int32]", np.array(vec, dtype=np.int32)), ("np.ndarray[uint8]", np.array(vec, dtype=np.uint8))):
                     good = try_step(v, rep, list(vec)) and good
                 counts["param_members"] += 1
                 if not good:
@@ -282,8 +286,8 @@ def run(pid, tier):
         "rule": RULE, "samples": samples,
         "exhaustive": int(ex.get("param_spaces_capped", 0)) == 0 and not agg["capped_scenarios"],
         "scenarios": agg["scenarios"], "modes_built": int(ex.get("modes", 0)),
-        "flat_members_x3_representations": int(ex.get("flat_members", 0)),
-        "param_vectors_x3_representations": int(ex.get("param_members", 0)),
+        "flat_members_x5_representations": int(ex.get("flat_members", 0)),
+        "param_vectors_x5_representations": int(ex.get("param_members", 0)),
         "enumerated_sampler_outputs": int(ex.get("sampled_members", 0)),
         "param_spaces_capped_at_%d" % MAX_PARAM_VECTORS: int(ex.get("param_spaces_capped", 0)),
         "family_features": agg["features"],
